@@ -23,10 +23,12 @@ func (v *Vue) evalInclude(ctx VueContext, node *html.Node, vars map[string]any, 
 	ctx.stack.Push(vars)
 	defer ctx.stack.Pop()
 
-	// Extract slot content from the component tag if not already processed
-	if ctx.SlotScope == nil {
-		ctx.SlotScope = extractSlotContent(node)
-	}
+	// Every include supplies its own slot content; the scope that was in
+	// effect around the include tag is kept as the parent, for slot content
+	// that itself contains <slot> elements.
+	parentScope := ctx.SlotScope
+	ctx.SlotScope = extractSlotContent(node)
+	ctx.SlotScope.Parent = parentScope
 
 	// Merge inherited slots from parent template (passed via __slotScope__ in data)
 	if inheritedSlotScopeData, ok := ctx.stack.EnvMap()["__slotScope__"]; ok {
